@@ -12,6 +12,7 @@ import (
 	"strings"
 	"sync"
 	"time"
+	"verif/harness/internal/kdc"
 
 	"github.com/jcmturner/gokrb5/v8/client"
 	"github.com/jcmturner/gokrb5/v8/config"
@@ -241,6 +242,7 @@ func c18(c *Ctx) {
 		oc, err := newOfflineClient(c, svcs, et)
 		if err != nil {
 			c.Notes = append(c.Notes, "offline client: "+err.Error())
+			c.Check(false, "a client is built from a well-formed credential cache holding a TGT and service tickets", "setup:offline-client", err.Error(), map[string]interface{}{"etype": et})
 			return
 		}
 		clients[et] = oc
@@ -372,6 +374,11 @@ func c18(c *Ctx) {
 				c.Check(false, "the authenticator decrypts under the ticket's session key with usage 11", "authenticator-undecryptable", derr2.Error(), inp)
 				continue
 			}
+			// an independent acceptor reads DER only: KerberosTime is YYYYMMDDHHMMSSZ (RFC 4120 5.2.3), lengths are minimal
+			sok, swhy := kdc.StrictDER(ab)
+			c.Check(sok, "the authenticator is DER as RFC 4120 requires (an independent acceptor can read it)", "authenticator-not-der", swhy, inp)
+			sok, swhy = kdc.StrictDER(st.NegTokenInit.MechTokenBytes[len(st.NegTokenInit.MechTokenBytes)-apreqLen(st.NegTokenInit.MechTokenBytes):])
+			c.Check(sok, "the AP-REQ is DER as RFC 4120 requires", "apreq-not-der", swhy, inp)
 			jst := jv.L(jv.I(int64(skew/time.Microsecond)), jv.Bool(false), jAddr(local), jv.L())
 			jtk := jv.L(jv.S(ar.Ticket.Realm), jv.Strs(ar.Ticket.SName.NameString), jv.I(int64(ar.Ticket.EncPart.EType)), jv.I(int64(ar.Ticket.EncPart.KVNO)), jv.B(ar.Ticket.EncPart.Cipher))
 			jau := jv.L(jv.S(au.CRealm), jv.Strs(au.CName.NameString), jv.I(au.CTime.Unix()), jv.I(int64(au.Cusec)))
@@ -388,6 +395,18 @@ func c18(c *Ctx) {
 		}
 	}
 	_ = url.Values{}
+}
+
+// apreqLen returns the length of the AP-REQ ([APPLICATION 14]) at the end of a KRB5 mechanism token
+func apreqLen(mt []byte) int {
+	for i := 0; i+1 < len(mt); i++ {
+		if mt[i] == 0x6e {
+			if ok, _ := kdc.StrictDER(mt[i:]); ok {
+				return len(mt) - i
+			}
+		}
+	}
+	return 0
 }
 
 func init() { props["C18"] = c18 }
